@@ -37,7 +37,7 @@ Definition mindist (data : list (Q * bool)) : Q :=
 (* thr_impl: None = -infinity *)
 Definition c16_accuracy (data : list (Q * bool)) (thr_impl : option Q) : bool :=
   match @calib_accuracy QOps data, thr_impl with
-  | RejectAll, Some t => qeqb t (Qred (mindist data - 1))
+  | RejectAll, Some t => negb (Qle_bool (mindist data) t)      (* any threshold below the smallest distance rejects every pair *)
   | At d, Some t => qeqb t d
   | _, None => false
   end.
